@@ -189,6 +189,8 @@ func runC11(c *Ctx) {
 		c.Check(bad == "", "C11.R2", "only the line reader reads from RuleScanner.reader and writes currentPos", readNext.Pos(), "who-may-call / who-may-write over the library", bad)
 	}
 
+	importRulesNoRec(c, runC12, map[string]string{"C12.R7": "C11.R6"}, map[string]string{"C11.R6": "the scanner reads complete lines, whatever their length (shared with C12.R7)"})
+
 	// ---------- R3 ----------
 	if rl := c.P.Type("filterlist", "RuleList"); rl != nil {
 		for _, n := range implementers(c.P, rl.Underlying().(*types.Interface)) {
@@ -241,6 +243,43 @@ func runC11(c *Ctx) {
 			}
 		}
 		c.Check(okP && okC, "C11.R3", "RuleScanner parses with rules.NewRule and the id it was constructed with", rsScan.Pos(), "listID := constructor parameter; rules.NewRule(line, s.listID)", "the scanner does not parse with the constructor's list id")
+	}
+
+	// trimming agreement: the scanner hands raw lines to NewRule, the retrievers trim first; all three must use the same function
+	{
+		trimOf := func(fn *ssa.Function) string {
+			out := ""
+			eachInstr(fn, func(_ *ssa.BasicBlock, in ssa.Instruction) {
+				if cl, ok := in.(*ssa.Call); ok && cl.Call.StaticCallee() != nil {
+					n := calleeName(cl.Call.StaticCallee())
+					if strings.HasPrefix(n, "strings.Trim") {
+						arg := ""
+						if len(cl.Call.Args) > 1 {
+							if k, ok := cl.Call.Args[1].(*ssa.Const); ok {
+								arg = constantString(k)
+							}
+						}
+						if out == "" {
+							out = n + "(" + arg + ")"
+						}
+					}
+				}
+			})
+			return out
+		}
+		tn := trimOf(newRule)
+		bad := ""
+		for _, m := range [][2]string{{"StringRuleList", "RetrieveRule"}, {"FileRuleList", "RetrieveRule"}} {
+			if fn := c.P.Method("filterlist", m[0], m[1]); fn != nil {
+				if t := trimOf(fn); t != tn {
+					bad = fmt.Sprintf("rules.NewRule normalises a line with %s but %s.RetrieveRule with %s: a line padded with a character only one of them strips scans as one rule and is retrieved as another", tn, m[0], t)
+				}
+			}
+		}
+		if tn != "strings.TrimSpace()" && bad == "" {
+			bad = "NewRule does not trim with strings.TrimSpace (the documented Text() is TrimSpace(line)): " + tn
+		}
+		c.Check(bad == "", "C11.R3", "scanner path and retrieval path trim lines with the same function", newRule.Pos(), "strings.TrimSpace at all three sites", bad)
 	}
 
 	// ---------- R4 ----------
@@ -323,6 +362,35 @@ func runC11(c *Ctx) {
 		}
 		if idx != nil {
 			bad = ""
+			// the search must cover exactly the bytes just read: b[:n] with n the count returned by Read
+			ps := g.ParamExprs(rl)
+			var buf *E
+			for i, p := range rl.Params {
+				if typeStr(p.Type()) == "[]byte" {
+					buf = ps[i]
+				}
+			}
+			var nRead *E
+			for _, ef := range s.Effects {
+				if ef.Kind == "call" && strings.HasSuffix(strings.TrimSuffix(ef.Call.Aux, ")"), ".Read") {
+					nRead = u.mk("extract", "0", nil, ef.Call)
+				}
+			}
+			hay := idx.Args[0]
+			if buf == nil || nRead == nil || !(hay.Op == "slice" && hay.Args[0] == buf && (hay.Args[1] == nil || isIntConst(hay.Args[1], 0)) && hay.Args[2] != nil && hay.Args[2].key == nRead.key) {
+				bad = "the newline is searched in " + clip(u.Show(hay), 60) + " instead of the bytes just read (buffer[:n]): the buffer is reused between retrievals, so a newline left over from an earlier, longer read is found and stale bytes are appended to the rule (a file-backed list then disagrees with an in-memory one)"
+			}
+			// the returned line keeps what was accumulated from earlier blocks and takes buffer[:idx]
+			for _, r := range s.Rets {
+				if !u.Mentions(r.Vals[0], func(x *E) bool { return x == idx }) {
+					continue
+				}
+				v := r.Vals[0]
+				okV := v.Op == "bin" && v.Aux == "+" && v.Args[0].Op == "loopphi" && v.Args[1].Op == "convert" && v.Args[1].Args[0].Op == "slice" && v.Args[1].Args[0].Args[0] == buf && v.Args[1].Args[0].Args[2] == idx
+				if !okV && bad == "" {
+					bad = "the line returned at the newline is " + clip(u.Show(v), 100) + ", documented: everything accumulated from earlier blocks + buffer[:newline] (a line longer than one 4 KiB block otherwise loses its beginning)"
+				}
+			}
 			var found Ref = False
 			for _, r := range s.Rets {
 				if u.Mentions(r.Vals[0], func(x *E) bool { return x == idx }) {
